@@ -68,6 +68,7 @@ struct FnBase {
       c->entry.store(vrt::stamp(), std::memory_order_relaxed);
     }
     if (tl_inTimedWait && !c->s.deferred) c->ranInTimedNonDeferred.fetch_add(1, std::memory_order_relaxed);
+    if (n == 1) vrt::violation("functor executed a second time", J().kv("spec", c->s.json())); // reported at once: the second run usually corrupts the functor
     if (n > 64) {
       vrt::violation("functor storm: executed more than 64 times", J().kv("runs", n));
       _exit(5);
@@ -346,7 +347,7 @@ Outcome runCase(const Spec& s, long idx) {
 
   // ---- verdicts
   int runs = c.runs.load();
-  if (runs != 1) {
+  if (runs == 0 || runs > 2) {
     vrt::violation("functor executed " + std::to_string(runs) + " times", J().kv("runs", runs).kv("overlap", c.overlap.load()).kv("spec", s.json()));
   }
   if (c.ranInTimedNonDeferred.load()) {
@@ -443,6 +444,124 @@ std::string keyOf(const Spec& s) {
       (s.pool == 0 && s.sched <= kSCTaskSet ? "/pool0" : "");
 }
 
+
+// ---------------------------------------------------------------- burst family
+// Many rounds per case on fresh futures with persistent waiter threads: in every round all waiters
+// (and, for the manual schedulable, the harness thread that invokes the stored function) are released
+// into get() / run() by one barrier, so the few-instruction window between the status load and the
+// status CAS in run() is hit by volume. The barrier orders only what precedes it (handing each waiter
+// its own copy); the racing calls themselves are unordered.
+constexpr int kBurstMaxRounds = 32;
+struct BurstCtx {
+  int sched = 0, waiters = 2, rounds = 8;
+  long base = 0;
+  std::atomic<int> runs[kBurstMaxRounds];
+  std::atomic<int> second{0};
+  const void* addr[kMaxWaiters][kBurstMaxRounds];
+  long tag[kMaxWaiters][kBurstMaxRounds];
+  dispenso::Future<Payload> cp[kMaxWaiters];
+  BurstCtx() {
+    for (auto& r : runs) r.store(0);
+  }
+};
+struct BurstFn {
+  BurstCtx* c;
+  int k;
+  FnGuts g;
+  BurstFn(BurstCtx* cc, int kk) : c(cc), k(kk) {}
+  Payload operator()() {
+    if (c->runs[k].fetch_add(1, std::memory_order_relaxed) >= 1) {
+      c->second.fetch_add(1, std::memory_order_relaxed);
+      vrt::violation("functor executed a second time", J().kv("round", k).kv("sched", schedName(c->sched)).kv("waiters", c->waiters));
+    }
+    vrt::progress();
+    return Payload(c->base + k);
+  }
+};
+
+void runBurst(long idx, vrt::Rng& r) {
+  std::unique_ptr<BurstCtx> cp(new BurstCtx);
+  BurstCtx& c = *cp;
+  static const int scs[] = {kSManual, kSManual, kSPool, kSCTaskSet, kSNewThread};
+  c.sched = scs[r.below(5)];
+  c.waiters = static_cast<int>(r.range(2, kMaxWaiters));
+  c.rounds = static_cast<int>(vrt::g_args.getInt("rounds", VRT_TSAN ? 6 : (VRT_ASAN ? 12 : 32)));
+  if (c.rounds > kBurstMaxRounds) c.rounds = kBurstMaxRounds;
+  int poolThreads = static_cast<int>(r.range(1, 3));
+  bool async = r.chance(0.5);
+  c.base = 100 + static_cast<long>(r.below(100000)) * 100;
+  J spec = J().kv("sched", schedName(c.sched)).kv("waiters", c.waiters).kv("rounds", c.rounds).kv("pool", poolThreads).kv("async", async);
+  std::string key = std::string("burst/") + schedName(c.sched) + (async ? "/async" : "/notasync");
+  vrt::caseBegin(idx, key, spec);
+  vrt::watchdogArm();
+  vrt::lifeReset();
+  clearPerturb();
+  long wrong = 0, diffAddr = 0, badRuns = 0;
+  {
+    dispenso::ThreadPool pool(static_cast<size_t>(poolThreads));
+    std::unique_ptr<dispenso::ConcurrentTaskSet> cts;
+    if (c.sched == kSCTaskSet) cts.reset(new dispenso::ConcurrentTaskSet(pool));
+    dispenso::NewThreadInvoker nti;
+    vrt::Barrier bar(c.waiters + 1);
+    std::vector<std::thread> th;
+    for (int w = 0; w < c.waiters; ++w) {
+      th.emplace_back([&c, &bar, w]() {
+        RoleScope role(kRoleWaiter);
+        for (int k = 0; k < c.rounds; ++k) {
+          bar.wait();
+          const Payload& p = c.cp[w].get();
+          c.addr[w][k] = &p;
+          c.tag[w][k] = p.sane(c.base + k) ? p.tag : -1;
+          bar.wait();
+          vrt::progress();
+        }
+      });
+    }
+    for (int k = 0; k < c.rounds; ++k) {
+      ManualInvoker manual;
+      {
+        dispenso::Future<Payload> f;
+        {
+          RoleScope role(kRoleCtor);
+          switch (c.sched) {
+            case kSManual: f = dispenso::Future<Payload>(BurstFn(&c, k), manual, asyncPol(async)); break;
+            case kSPool: f = dispenso::Future<Payload>(BurstFn(&c, k), pool, asyncPol(async)); break;
+            case kSCTaskSet: f = dispenso::Future<Payload>(BurstFn(&c, k), *cts, asyncPol(async)); break;
+            default: f = dispenso::Future<Payload>(BurstFn(&c, k), nti, asyncPol(async)); break;
+          }
+        }
+        for (int w = 0; w < c.waiters; ++w) c.cp[w] = f;
+      }
+      bar.wait();
+      if (c.sched == kSManual) {
+        RoleScope role(kRoleRunner);
+        manual.run(0);
+      }
+      bar.wait();
+      for (int w = 0; w < c.waiters; ++w) c.cp[w] = dispenso::Future<Payload>();
+    }
+    for (auto& t : th) t.join();
+    RoleScope role(kRoleDrain);
+    cts.reset();
+    dispenso::detail::drainNewThreadInvokerThreads();
+  }
+  dispenso::detail::drainNewThreadInvokerThreads();
+  vrt::watchdogDisarm();
+  for (int k = 0; k < c.rounds; ++k) {
+    if (c.runs[k].load() != 1) ++badRuns;
+    for (int w = 0; w < c.waiters; ++w) {
+      if (c.tag[w][k] != c.base + k) ++wrong;
+      if (c.addr[w][k] != c.addr[0][k]) ++diffAddr;
+    }
+  }
+  if (badRuns && !c.second.load()) vrt::violation("functor run count differs from 1 in " + std::to_string(badRuns) + " rounds", spec);
+  if (wrong) vrt::violation("get() returned an object that is not the functor's result in " + std::to_string(wrong) + " calls", spec);
+  if (diffAddr) vrt::violation("two get() calls of one round returned different result objects (" + std::to_string(diffAddr) + ")", spec);
+  lifeVerdict("C18 burst");
+  long evals = static_cast<long>(c.rounds);
+  vrt::caseEnd(J().kv("_evals", evals).kv("_nt", evals).kv("badRuns", badRuns), "", {"burst", std::string("burst:") + schedName(c.sched)});
+}
+
 } // namespace
 
 void runC18(long base) {
@@ -457,5 +576,12 @@ void runC18(long base) {
     Outcome o = s.res == 0 ? runCase<Payload>(s, idx) : s.res == 1 ? runCase<Payload&>(s, idx) : runCase<void>(s, idx);
     vrt::watchdogDisarm();
     vrt::caseEnd(o.stats, o.nontrivial ? s.json().str() : "", o.cls);
+  }
+  const long nb = vrt::g_args.getInt("burst", n / 5);
+  for (long k = 0; k < nb; ++k) {
+    long idx = base + n + k;
+    if (!vrt::selected(idx)) continue;
+    vrt::Rng r = vrt::caseRng(idx);
+    runBurst(idx, r);
   }
 }
